@@ -1,11 +1,11 @@
 #!/bin/bash
 # run_all.sh [tier] [seed]  - runs every registered check, prints one line each
 TIER=${1:-quick}; SEED=${2:-1}
-cd /verif
+cd "$(dirname "$0")/.."
 rc_all=0
 for i in 01 02 03 04 05 06 07 08 09 10 11 12 13 14 15 16 17 18 19 20; do
   s=$(date +%s.%N)
-  out=$(VERIF_SEED=$SEED /venv/bin/python run_check.py C$i --tier $TIER 2>/tmp/run_all_err.txt); rc=$?
+  out=$(VERIF_SEED=$SEED /venv/bin/python ./run_check.py C$i --tier $TIER 2>/tmp/run_all_err.txt); rc=$?
   e=$(date +%s.%N)
   printf "C%s rc=%d %.1fs  %s\n" $i $rc $(echo "$e - $s" | bc) "$(echo "$out" | tail -1 | cut -c1-150)"
   if [ $rc -ne 0 ]; then rc_all=1; grep -E "^violation|HARNESS" /tmp/run_all_err.txt | head -3 | cut -c1-300; fi
